@@ -7,13 +7,15 @@ RULE = ("Same harness and histories as C05 plus listener churn: 0..5 spy RecordU
         "the expected (new, previous) list, the mid state (refreshes and flush marks applied, nothing added/removed) and the "
         "final state; each spy registered at datagram start and not removed during it must get exactly one update call with "
         "that list (previous being the cached object), then exactly one complete call; cache snapshots taken inside each "
-        "callback through public lookups must equal mid/final state. Distinct = (record relation classes, #listeners, churn).")
-ASSUMPTIONS = ["only listeners registered at datagram start and not removed while it is processed are constrained"]
+        "callback through public lookups must equal mid/final state; a spy removed during the first round gets no complete call, "
+        "one registered during the first round gets exactly one. Distinct = (record relation classes, #listeners, churn).")
+ASSUMPTIONS = ["listeners registered at datagram start and not removed while it is processed are fully constrained; for the others only the second-round call count is judged"]
 
 
 def floors(tier):
     q = tier == "quick"
-    return {"c06.contract": 30000 if q else 3000000, "c06.mid_state": 20000 if q else 2000000, "c06.final_state": 40000 if q else 3000000}
+    return {"c06.contract": 30000 if q else 3000000, "c06.mid_state": 20000 if q else 2000000, "c06.final_state": 40000 if q else 3000000,
+            "c06.contract.churn": 500 if q else 50000}
 
 
 def plan(tier, seed):
